@@ -20,6 +20,16 @@ class Mono:
     __slots__ = ("exps", "dec", "sign", "facs", "_h")
 
     def __init__(self, exps: Dict[str, Fraction] = None, dec=Fraction(0), sign=1, facs=frozenset()):
+        if exps and "j" in exps:
+            # imaginary unit marker: j^2 = -1
+            exps = dict(exps)
+            jn = exps["j"]
+            if jn == int(jn):
+                jn = int(jn) % 4
+                if jn >= 2:
+                    sign = -sign
+                    jn -= 2
+                exps["j"] = jn
         e = tuple(sorted((k, Fraction(v)) for k, v in (exps or {}).items() if v != 0))
         self.exps = e
         self.dec = dec  # Fraction or None (unknown)
@@ -164,7 +174,25 @@ def power(a, k):
 def absval(a):
     if a is TOP:
         return TOP
-    return frozenset(m.with_sign(1) for m in a)
+    return frozenset(m.drop(("j",)).with_sign(1) for m in a)
+
+
+def real_part(a):
+    """Monomials without the imaginary marker (values of unknown complex structure have none
+    and are returned unchanged)."""
+    if a is TOP:
+        return TOP
+    if not any(m.exp("j") for m in a):
+        return a
+    return frozenset(m for m in a if m.exp("j") == 0)
+
+
+def imag_part(a):
+    if a is TOP:
+        return TOP
+    if not any(m.exp("j") for m in a):
+        return a
+    return frozenset(m.drop(("j",)) for m in a if m.exp("j") == 1)
 
 
 def unknown_sign(a):
@@ -179,7 +207,9 @@ def literal(v) -> FrozenSet[Mono]:
     if isinstance(v, bool) or v is None:
         return S(PURE)
     if isinstance(v, complex):
-        return S(PURE)
+        if v.real == 0 and v.imag != 0:
+            return S(Mono({"j": 1}, sign=1 if v.imag > 0 else -1))
+        return S(PURE, Mono({"j": 1}))
     if not isinstance(v, (int, float)):
         return TOP
     if v == 0:
